@@ -29,6 +29,16 @@ def del (d : Dict ν) (k : String) : Except PyErr (Dict ν) :=
   | some _ => pure (d.filter fun p => p.1 != k)
   | none => throw (.raised "KeyError" k)
 
+/-- `d.setdefault(k, []).append(v)` for a dict of lists -/
+def setdefaultAppend : Dict (List String) → String → String → Dict (List String)
+  | [], k, v => [(k, [v])]
+  | (k', vs) :: rest, k, v => if k' = k then (k', vs ++ [v]) :: rest else (k', vs) :: setdefaultAppend rest k v
+
+/-- `dict.fromkeys(xs)` as a list of keys: first occurrences, in order -/
+def fromkeys : List String → List String
+  | [] => []
+  | x :: xs => x :: (fromkeys xs).filter (· ≠ x)
+
 /-! lemmas for the tie proofs -/
 
 theorem set_of_not_mem (d : Dict ν) (k : String) (v : ν) (h : k ∉ d.map Prod.fst) :
